@@ -497,6 +497,35 @@ fn succinct_cases(ctx: &mut Ctx) {
             );
         }
     }
+    // long challenge lists (the expanded vector has 2^k entries and cannot be materialised): evaluate against
+    // the defining product form, computed here by repeated squaring
+    for k in [11usize, 16, 24, 31, 32, 33, 40, 48, 63, 64] {
+        for j in 0..ctx.n(2, 8) {
+            let id = format!("C16/succinct-long/{}/{}", k, j);
+            if !ctx.selected(&id) {
+                continue;
+            }
+            let mut rng = rng_for(ctx.seed, "C16/succinct-long", (k * 1000 + j) as u64);
+            let us: Vec<Fr> = (0..k).map(|_| Fr::rand(&mut rng)).collect();
+            let z = Fr::rand(&mut rng);
+            let v = guarded(|| SuccinctCheckPolynomial(us.clone()).evaluate(z));
+            let mut prod = Fr::one();
+            for (idx, u) in us.iter().enumerate() {
+                let mut zp = z;
+                for _ in 0..(k - 1 - idx) {
+                    zp = zp.square();
+                }
+                prod *= Fr::one() + *u * zp;
+            }
+            if v.as_ref().ok() != Some(&prod) {
+                ctx.rep.expect_fail(&id, "succinct/product-form",
+                    &format!("evaluate(z) != prod (1 + u_i z^(2^(k-i))) for {} challenges ({})", k, if v.is_err() { "aborted" } else { "different value" }),
+                    format!("# SuccinctCheckPolynomial with {} challenges\n# case {}\nc16.succinct-long us={} z={}\n", k, id, wire::fes(&us), wire::fe(&z)));
+            }
+            ctx.rep.count(&format!("succinct-long/k={}", k));
+            ctx.rep.case(&format!("succinct-long k={}", k), Some(format!("succinct-long/{}/{}", k, j)));
+        }
+    }
     ctx.flush_model("C16-succinct");
 }
 
